@@ -34,6 +34,21 @@ def resources2(nparts, cap=1):
         {'k': 'sink', 'name': 'snk', 'up': ['p1', 'p2'], 'cycle': 'cs'}]}
 
 
+NESTED = {'groups': [{'name': 'gin', 'devices': ['m1']}, {'name': 'gout', 'devices': ['ip']}],
+          'devices': [{'k': 'source', 'name': 'src', 'cycle': 'c0', 'parts': 2},
+                      {'k': 'proc', 'name': 'm1', 'up': [], 'cycle': 'c1'},
+                      {'k': 'path', 'name': 'ip', 'group': 'gin', 'up': []},
+                      {'k': 'path', 'name': 'op', 'group': 'gout', 'up': ['src']},
+                      {'k': 'sink', 'name': 'snk', 'up': ['op'], 'cycle': 'cs'}]}
+REENTRANT = {'groups': [{'name': 'g', 'devices': ['m1']}],
+             'devices': [{'k': 'source', 'name': 'src', 'cycle': 'c0', 'parts': 2},
+                         {'k': 'proc', 'name': 'm1', 'up': [], 'cycle': 'c1'},
+                         {'k': 'path', 'name': 'gp1', 'group': 'g', 'up': ['src']},
+                         {'k': 'handler', 'name': 'm2', 'up': ['gp1'], 'cycle': 'c2'},
+                         {'k': 'path', 'name': 'gp2', 'group': 'g', 'up': ['m2']},
+                         {'k': 'sink', 'name': 'snk', 'up': ['gp2'], 'cycle': 'cs'}]}
+
+
 def _faults_basic(nparts, ops, **kw):
     return with_ops(serial('P', nparts), ops, **kw)
 
@@ -68,6 +83,8 @@ def _subs(tier, prop):
             {'k': 'addres', 'res': 'r', 'amount': 1, 't': 't0'}]), mons, zero=['cs', 'c0']))
         S.append(mk_sub('F5-external-holder-releases', with_ops(serial('P', 2, res={'r': 1}) | {'pools': {'r': 1}}, [
             {'k': 'hold', 'res': 'r', 'amount': 1, 't': 0, 'prio': 'high'}, {'k': 'unhold', 'res': 'r', 't': 't0'}]), mons, zero=['cs']))
+        S.append(mk_sub('F4-nested-n2', NESTED, mons, zero=['cs']))
+        S.append(mk_sub('F4-reentrant-n2', REENTRANT, mons, zero=['cs', 'c0']))
         S.append(mk_sub('F8-budget-raise', with_ops(serial('H', 1), [
             {'k': 'budget', 'dev': 'src', 't': 't0', 'n': 1}]), mons, zero=['cs']))
     elif prop == 'C05':
@@ -183,6 +200,58 @@ def _subs(tier, prop):
         sp4['devices'][1]['costs'] = {'m': 'k0'}
         sp4['devices'][0]['value'] = 'v0'
         S.append(mk_sub('F6-workorder-cost', sp4, mons, zero=['cs'], ranges={'k0': (0, L.T), 'v0': (0, L.T)}))
+    elif prop == 'C08':
+        mons = ['routing']
+        fan = {'devices': [{'k': 'source', 'name': 'src', 'cycle': 'c0', 'parts': 3},
+                           {'k': 'proc', 'name': 'p1', 'up': ['src'], 'cycle': 'c1'}, {'k': 'proc', 'name': 'p2', 'up': ['src'], 'cycle': 'c2'},
+                           {'k': 'sink', 'name': 'snk', 'up': ['p1', 'p2'], 'cycle': 'cs'}], 'idle_longest': ['p1', 'p2']}
+        S.append(mk_sub('F2-fanout-n3', fan, mons, zero=['cs']))
+        gates = {'devices': [{'k': 'source', 'name': 'src', 'cycle': 'c0', 'parts': 3},
+                             {'k': 'gate', 'name': 'ge', 'up': ['src'], 'pred': 'even'}, {'k': 'gate', 'name': 'go', 'up': ['src'], 'pred': 'odd'},
+                             {'k': 'proc', 'name': 'p1', 'up': ['ge'], 'cycle': 'c1'}, {'k': 'proc', 'name': 'p2', 'up': ['go'], 'cycle': 'c2'},
+                             {'k': 'sink', 'name': 'snk', 'up': ['p1', 'p2'], 'cycle': 'cs'}]}
+        S.append(mk_sub('F3-gates-n3', gates, mons, zero=['cs']))
+        reent = {'groups': [{'name': 'g', 'devices': ['m1']}],
+                 'devices': [{'k': 'source', 'name': 'src', 'cycle': 'c0', 'parts': 2},
+                             {'k': 'proc', 'name': 'm1', 'up': [], 'cycle': 'c1'},
+                             {'k': 'path', 'name': 'gp1', 'group': 'g', 'up': ['src']},
+                             {'k': 'handler', 'name': 'm2', 'up': ['gp1'], 'cycle': 'c2'},
+                             {'k': 'path', 'name': 'gp2', 'group': 'g', 'up': ['m2']},
+                             {'k': 'sink', 'name': 'snk', 'up': ['gp2'], 'cycle': 'cs'}]}
+        S.append(mk_sub('F4-reentrant-n2', reent, mons, zero=['cs']))
+        two = {'groups': [{'name': 'g', 'devices': ['m1', 'm2']}],
+               'devices': [{'k': 'source', 'name': 'srcA', 'cycle': 'c0', 'parts': 1}, {'k': 'source', 'name': 'srcB', 'cycle': 'c3', 'parts': 1},
+                           {'k': 'proc', 'name': 'm1', 'up': [], 'cycle': 'c1'}, {'k': 'handler', 'name': 'm2', 'up': ['m1'], 'cycle': 'c2'},
+                           {'k': 'path', 'name': 'gpA', 'group': 'g', 'up': ['srcA']}, {'k': 'path', 'name': 'gpB', 'group': 'g', 'up': ['srcB']},
+                           {'k': 'sink', 'name': 'snkA', 'up': ['gpA'], 'cycle': 0}, {'k': 'sink', 'name': 'snkB', 'up': ['gpB'], 'cycle': 0}]}
+        S.append(mk_sub('F4-two-paths-shared-group', two, mons))
+        nested = {'groups': [{'name': 'gin', 'devices': ['m1']}, {'name': 'gout', 'devices': ['ip']}],
+                  'devices': [{'k': 'source', 'name': 'src', 'cycle': 'c0', 'parts': 2},
+                              {'k': 'proc', 'name': 'm1', 'up': [], 'cycle': 'c1'},
+                              {'k': 'path', 'name': 'ip', 'group': 'gin', 'up': []},
+                              {'k': 'path', 'name': 'op', 'group': 'gout', 'up': ['src']},
+                              {'k': 'sink', 'name': 'snk', 'up': ['op'], 'cycle': 'cs'}]}
+        S.append(mk_sub('F4-nested-n2', nested, mons))
+        S.append(mk_sub('F8-block-path', with_ops(reent, [{'k': 'block', 'dev': 'gp2', 't': 't0'}, {'k': 'unblock', 'dev': 'gp2', 't': 't1'}]),
+                        mons, zero=['cs', 'c0'], pre=['t0 <= t1']))
+        S.append(mk_sub('F8-block-gate', with_ops(gates, [{'k': 'block', 'dev': 'ge', 't': 't0'}, {'k': 'unblock', 'dev': 'ge', 't': 't1'}]),
+                        mons, zero=['cs', 'c0'], pre=['t0 <= t1']))
+    elif prop == 'C17':
+        mons = ['batch', 'buffer', 'census']
+        for size in ([None, 2] if q else [None, 1, 2, 3]):
+            for batches in ([[None, 'b1', None], ['b0', 'b1']] if q else [[None, 'b1', None], ['b0', 'b1'], ['b0', None, 'b2'], [None, None, None]]):
+                spec = {'devices': [{'k': 'source', 'name': 'src', 'cycle': 'c0', 'parts': len(batches), 'batches': batches},
+                                    {'k': 'batcher', 'name': 'bat', 'up': ['src'], 'size': size},
+                                    {'k': 'buffer', 'name': 'buf', 'up': ['bat'], 'delay': 0, 'cap': 10},
+                                    {'k': 'sink', 'name': 'snk', 'up': ['buf'], 'cycle': 'cs'}]}
+                nm = ''.join('1' if b is None else 'B' for b in batches)
+                S.append(mk_sub(f'F7-size{size}-in{nm}', spec, mons, ranges={'b0': (0, 3), 'b1': (0, 3), 'b2': (0, 3)}, zero=['c0']))
+        spec = {'devices': [{'k': 'source', 'name': 'src', 'cycle': 0, 'parts': 2, 'batches': ['b0', 'b1']},
+                            {'k': 'batcher', 'name': 'bat', 'up': ['src'], 'size': 2},
+                            {'k': 'handler', 'name': 'h', 'up': ['bat'], 'cycle': 'c1'},
+                            {'k': 'sink', 'name': 'snk', 'up': ['h'], 'cycle': 0}],
+                'ops': [{'k': 'block', 'dev': 'h', 't': 0, 'prio': 'high'}, {'k': 'unblock', 'dev': 'h', 't': 't0'}]}
+        S.append(mk_sub('F7-size2-blocked-downstream', spec, ['batch', 'census'], ranges={'b0': (0, 3), 'b1': (0, 3)}))
     return S
 
 
@@ -237,6 +306,8 @@ REQUIRED = {
     'C15': ['level_recorded', 'failure_recorded', 'produced_recorded', 'supplied_recorded', 'resource_recorded', 'work_order_recorded',
             'trace_checked'],
     'C16': ['value_added_by_processing', 'valuable_part_received', 'work_order_cost_charged'],
+    'C08': ['idle_longest_decided', 'passed_gate', 'entered_group', 'left_group_through_entry_path'],
+    'C17': ['full_batch_emitted', 'batch_unpacked', 'partial_batch_waiting', 'history_reached_contained_part', 'empty_batch_input'],
     'C13': ['failure_occurred', 'failure_lost_a_part', 'failure_while_down_with_part', 'repeated_shutdown', 'repeated_restore',
             'restored', 'utilization_accumulated', 'work_order_finished', 'work_order_in_progress'],
 }
